@@ -98,6 +98,23 @@ OTHER_ESCAPE_SEQUENCES = (r'X(?:[0-9A-Fa-f]{2})+|Z[0-9A-Za-z]+|C[0-9A-Fa-f]{4}|M
                           r'\.(?:br|sp|fi|nf|in|ti|sk|ce) ?[+-]?[0-9]*')
 
 
+def _other_escape_sequences(escape_char):
+    """
+    The pattern of the escape sequences above that can be told from text when ``escape_char`` is the escape
+    character, i.e. the ones it cannot itself be part of (``None`` when there is none)
+    """
+    if escape_char.isalnum():
+        return None
+    if escape_char not in '.+- ':
+        return OTHER_ESCAPE_SEQUENCES
+    sequences = r'X(?:[0-9A-Fa-f]{2})+|Z[0-9A-Za-z]+|C[0-9A-Fa-f]{4}|M[0-9A-Fa-f]{4}(?:[0-9A-Fa-f]{2})?'
+    if escape_char != '.':
+        blank = '' if escape_char == ' ' else ' ?'
+        signs = '|'.join(re.escape(c) for c in '+-' if c != escape_char)
+        sequences += r'|\.(?:br|sp|fi|nf|in|ti|sk|ce)%s(?:%s)?[0-9]*' % (blank, signs)
+    return sequences
+
+
 class TextualDataType(BaseDataType):
     """
     Base class for textual data types.
@@ -145,10 +162,10 @@ class TextualDataType(BaseDataType):
 
     def _get_escape_char_regex(self, escape_char):
         esc = re.escape(escape_char)
-        if escape_char.isalnum() or escape_char in '.+- ':
-            # the escape character could itself occur inside those sequences: only the single-letter ones are recognised
+        other = _other_escape_sequences(escape_char)
+        if other is None:
             return r'(%s[%s]%s)|%s' % (esc, self._escape_letters, esc, esc)
-        return r'(%s(?:[%s]|%s)%s)|%s' % (esc, self._escape_letters, OTHER_ESCAPE_SEQUENCES, esc, esc)
+        return r'(%s(?:[%s]|%s)%s)|%s' % (esc, self._escape_letters, other, esc, esc)
 
     def _escape_value(self, value, encoding_chars=None):
         escape_char = encoding_chars['ESCAPE']
